@@ -25,6 +25,7 @@
      _get_fixture_params                                 get_fixture_params ("fixture_name" receives the name itself: PName)
      _setup_fixture                                      setup_fixture_begin (asserts, computes the params) ; setup_fixture_end (stores the result)
      _teardown_fixture                                   teardown_fixture
+   (what the runner does with them when nothing fails)   setup_all / teardown_all / dry_run_test / dry_run_suite / dry_run (end of file)
 
    Truthiness tests mirrored: `elif self._parent_scheduled_fixtures:` is an `is not None` test in effect (ScheduledFixtures defines neither
    __bool__ nor __len__): the empty chain is "no parent".  `if not suite.has_enabled_tests() and not include_disabled` is boolean.
@@ -386,7 +387,11 @@ Arguments teardown_fixture {V} c n.
                             has_enabled_tests or force_disabled: setups in order, then get_fixture_results(injected),
                             then get_fixture_results(setup_suite arguments)
      TestTask.run:          per test that is enabled or forced: test schedule (parent: the suite's), setups in order,
-                            then _prepare_test_args: get_fixture_result for each argument that is not a parameter.
+                            then _prepare_test_args: get_fixture_result for each argument that is not a parameter,
+                            then the teardowns of the test fixtures in reverse order (_teardown_fixture: "has not been
+                            previously executed" assertion).
+     teardowns:             of the suite fixtures after the tests of the suite (SuiteTeardownTask), of the session fixtures
+                            after all suites, of the pre_run fixtures at the very end; always in reverse setup order.
    Returns the first error.  C14_no_structural_failure: validated => Ok for both values of force_disabled. *)
 Definition setup_all (c : chain name) : result (chain name) :=
   match c with
@@ -396,10 +401,20 @@ Definition setup_all (c : chain name) : result (chain name) :=
                 (sf_names l) (Ok c)
   end.
 
+(* run_teardown_funcs: the teardowns of the level, in reverse order *)
+Definition teardown_all (c : chain name) : result (chain name) :=
+  match c with
+  | [] => Ok []
+  | l :: _ =>
+      fold_left (fun acc n => bind acc (fun c' => bind (teardown_fixture c' n) (fun vc => Ok (snd vc))))
+                (rev (sf_names l)) (Ok c)
+  end.
+
 Definition dry_run_test (reg : registry) (suite_chain : chain name) (t : test) : result unit :=
   bind (get_fixtures_scheduled_for_test reg t) (fun fxs =>
   bind (setup_all (new_level fxs :: suite_chain)) (fun c =>
-  bind (get_fixture_results c (test_fixtures t)) (fun _ => Ok tt))).
+  bind (get_fixture_results c (test_fixtures t)) (fun _ =>
+  bind (teardown_all c) (fun _ => Ok tt)))).
 
 Fixpoint dry_run_suite (reg : registry) (force_disabled : bool) (session_chain : chain name) (inh : bool) (s : suite)
   : result unit :=
@@ -413,7 +428,9 @@ Fixpoint dry_run_suite (reg : registry) (force_disabled : bool) (session_chain :
               Ok c)))
             else Ok (new_level fxs :: session_chain)) (fun c =>
       bind (for_each (fun t => if test_enabled (inh || d) t || force_disabled then dry_run_test reg c t else Ok tt) ts) (fun _ =>
-      for_each (dry_run_suite reg force_disabled session_chain (inh || d)) subs)))
+      (* SuiteTeardownTask: only when the initialisation task exists *)
+      bind (if has_enabled_tests inh s || force_disabled then bind (teardown_all c) (fun _ => Ok tt) else Ok tt) (fun _ =>
+      for_each (dry_run_suite reg force_disabled session_chain (inh || d)) subs))))
   end.
 
 Definition dry_run (reg : registry) (suites : list suite) (force_disabled : bool) : result unit :=
@@ -421,4 +438,6 @@ Definition dry_run (reg : registry) (suites : list suite) (force_disabled : bool
   bind (setup_all [new_level pre]) (fun c0 =>
   bind (get_fixtures_scheduled_for_session reg suites force_disabled) (fun ses =>
   bind (setup_all (new_level ses :: c0)) (fun c1 =>
-  for_each (dry_run_suite reg force_disabled c1 false) suites)))).
+  bind (for_each (dry_run_suite reg force_disabled c1 false) suites) (fun _ =>
+  bind (teardown_all c1) (fun _ =>                  (* TestSessionTeardownTask *)
+  bind (teardown_all c0) (fun _ => Ok tt))))))).    (* run_suites: teardown of the pre_run fixtures *)
